@@ -223,6 +223,14 @@ Theorem C04_kbn_source_is_the_model :
 Proof. exact (conj kbn_translated_ok gen_kbn_total_is_model). Qed.
 Print Assumptions C04_kbn_source_is_the_model.
 
+(** ... and so is Canonicalize itself: [gen_canon] is translated from the body of basic.Canonicalize
+    (the summation loop, the zero test, the early ErrZeroSum return, the in-place division loop). *)
+Theorem C04_canonicalize_source_is_the_model :
+  canon_translated = true /\
+  forall (S : ScalarOps) (l : list (nat * S)), gen_canon l = canon l.
+Proof. exact (conj canon_translated_ok gen_canon_is_model). Qed.
+Print Assumptions C04_canonicalize_source_is_the_model.
+
 (** (F) what stays decided per run rather than proved: that the concrete runs
     meet [canon_ok] (the "absent overflow/underflow" clause is a hypothesis
     here) — the correspondence cases [Scaled] compare the canonical forms of
